@@ -107,6 +107,9 @@ struct World<'a> {
     reported: BTreeSet<String>,
     stop: bool,
     in_liveness: bool,
+    /// the node layer does not receive events at the moment; what the delivered event tasks must have sent
+    node_stalled: bool,
+    undrained: Vec<BTreeSet<usize>>,
     live_scheduled: BTreeSet<(usize, Ty)>,
 }
 
@@ -202,6 +205,8 @@ impl<'a> World<'a> {
             reported: BTreeSet::new(),
             stop: false,
             in_liveness: false,
+            node_stalled: false,
+            undrained: vec![],
             live_scheduled: BTreeSet::new(),
         };
         for (k, v) in &plan.held {
@@ -954,6 +959,45 @@ impl<'a> World<'a> {
         ));
     }
 
+    /// The node layer catches up: every event sent while it was stalled arrives, none is lost.
+    async fn resume_node(&mut self, i: &str) {
+        if !self.node_stalled {
+            return;
+        }
+        self.node_stalled = false;
+        let mut got: Vec<BTreeSet<usize>> = vec![];
+        for _ in 0..64 {
+            settle().await;
+            let mut n = 0;
+            while let Ok(ev) = self.events.try_recv() {
+                n += 1;
+                match ev {
+                    NetworkEvent::FailedToFetchHolders(set) => got.push(set.iter().filter_map(|p| self.holder_idx.get(p).copied()).collect()),
+                    other => {
+                        self.diverged(format!("{i}: unexpected event {other:?}"));
+                        return;
+                    }
+                }
+            }
+            if n == 0 {
+                break;
+            }
+        }
+        let mut want = std::mem::take(&mut self.undrained);
+        self.rep.log(format!("{i} node layer resumes: {} events received, {} were sent", got.len(), want.len()));
+        got.sort();
+        want.sort();
+        if got != want {
+            self.violate(
+                "timeout.wrong_holders_reported",
+                "events_sent_while_node_stalled",
+                format!("{i}: while the node layer was stalled the fetcher sent reports {want:?}; it received {got:?}"),
+            );
+        } else if !want.is_empty() {
+            self.rep.probe("events_survived_a_stalled_node_layer");
+        }
+    }
+
     async fn do_deliver(&mut self, i: &str, sel: u32) {
         let pending: Vec<u64> = hooks::gates_pending()
             .iter()
@@ -970,6 +1014,12 @@ impl<'a> World<'a> {
         self.rep.sched.write_u64(id);
         hooks::gate_open(id);
         settle().await;
+        if self.node_stalled {
+            // nobody receives: the event sits in the channel, or its task waits for capacity
+            self.undrained.push(expected);
+            self.rep.log(format!("{i} deliver event task {id}: node layer stalled, event left in the channel ({} waiting)", self.undrained.len()));
+            return;
+        }
         let mut got = vec![];
         while let Ok(ev) = self.events.try_recv() {
             got.push(ev);
@@ -1102,6 +1152,14 @@ impl<'a> World<'a> {
                 self.after_call(format!("{i} next_keys_to_fetch"), Call::Next, ret).await
             }
             Step::Deliver { sel } => self.do_deliver(&i, *sel).await,
+            Step::StallNode => {
+                if !self.node_stalled {
+                    self.node_stalled = true;
+                    self.fault("node_layer_stalled");
+                    self.rep.log(format!("{i} node layer stalls (event channel capacity {})", self.plan.chan_cap.max(1)));
+                }
+            }
+            Step::ResumeNode => self.resume_node(&i).await,
         }
     }
 
@@ -1234,6 +1292,9 @@ impl<'a> World<'a> {
             if self.stop {
                 break;
             }
+        }
+        if !self.stop {
+            self.resume_node("before-liveness").await;
         }
         if !self.stop {
             self.liveness().await;
